@@ -135,8 +135,6 @@ async fn read_back(ds: Dataset, batch_size: Option<usize>, schema: SchemaRef) ->
         let gs = got.first().map(|b| b.schema()).unwrap_or(schema);
         let all = arrow_select::concat::concat_batches(&gs, got.iter()).map_err(|e| lance::Error::invalid_input(e.to_string(), snafu::location!()))?;
         let n = ds.count_rows(None).await?;
-        // PLANT (temporary sanity test): the scan loses its last row when the table has more than 40 rows
-        let all = if std::env::var("C11_PLANT").map(|v| v == "scan" || v == "both").unwrap_or(false) && all.num_rows() > 40 { all.slice(0, all.num_rows() - 1) } else { all };
         Ok((all, n))
     })
     .await
